@@ -406,6 +406,28 @@ func c19Check(c c19Case) *Violation {
 			if len(after) != len(before)+1 {
 				return viol("insert-multiset", "step %d: %d features after inserting into %d", step, len(after), len(before))
 			}
+			// the same table with room behind its last entry (as a table grown by appends has) receives two different
+			// features: neither the table nor the first result may read differently afterwards
+			{
+				roomy := make(gts.FeatureSlice, len(table), len(table)+4)
+				copy(roomy, table)
+				other := gts.NewFeature("misc_feature", gts.Range(0, 1), gts.Props{{"note", "other"}})
+				var r1 gts.FeatureSlice
+				var s1 string
+				if pi := guard(func() {
+					r1 = roomy.Insert(gf)
+					s1 = tableString(r1)
+					roomy.Insert(other)
+				}); pi != nil {
+					return panicViolation("FeatureSlice.Insert (roomy table)", pi)
+				}
+				if now := tableString(r1); now != s1 {
+					return viol("insert-later", "step %d: the table returned by Insert read %s and reads %s after another feature was inserted into the same table", step, s1, now)
+				}
+				if now := tableString(roomy); now != tableString(before) {
+					return viol("insert-later", "step %d: the table that received two insertions read %s and now reads %s", step, tableString(before), now)
+				}
+			}
 			// multiset and relative order of the old features
 			cnt := map[string]int{}
 			for _, x := range after {
